@@ -1527,6 +1527,7 @@ func ruleR03_13(w *World, r *Report) {
 					case strings.Contains(s, "φ") || strings.Contains(s, "len(") || strings.Contains(s, ".Len()"):
 					case strings.Contains(s, fn.Name()+"("):
 					case strings.Contains(s, "Next("):
+					case strings.Contains(s, "IsNil("): // a nil slice or map is itself the null (F46)
 					case strings.Contains(s, "StructToMap") || strings.Contains(s, "== nil") || strings.Contains(s, "!= nil"):
 					default:
 						bad = s
@@ -1538,5 +1539,92 @@ func ruleR03_13(w *World, r *Report) {
 	}
 	if n < 1 {
 		r.Lost("the recursive null test of Document values (hasNullValue)")
+	}
+}
+
+// R13.7 the client-local refusal of a key does not depend on handlers (F47)
+func ruleR13_7(w *World, r *Report) {
+	u := w.Client()
+	r.Rule("R13.7", "when the client's registry refuses a key (it is used by a datatype of another type) subscribeOrCreateDatatype returns nil on every path, whether or not handlers were given, and an error handler is only called when there is one", 2)
+	fn := u.Fn(pOrda, "clientImpl", "subscribeOrCreateDatatype")
+	if fn == nil {
+		r.Lost("clientImpl.subscribeOrCreateDatatype")
+		return
+	}
+	var exist *ssa.Call
+	for _, c := range callsNamed(fn, "ExistDatatype") {
+		exist, _ = c.(*ssa.Call)
+	}
+	if exist == nil {
+		r.Lost("subscribeOrCreateDatatype: ExistDatatype")
+		return
+	}
+	ev := errResult(exist)
+	found := false
+	for _, b := range fn.Blocks {
+		if len(b.Instrs) == 0 {
+			continue
+		}
+		ifi, ok := b.Instrs[len(b.Instrs)-1].(*ssa.If)
+		if !ok {
+			continue
+		}
+		l := normLit(condEdge{ifi.Cond, true})
+		var entry *ssa.BasicBlock
+		switch {
+		case isNilCheckOf(l, ev, false):
+			entry = b.Succs[0]
+		case isNilCheckOf(l, ev, true):
+			entry = b.Succs[1]
+		default:
+			continue
+		}
+		found = true
+		reach, bad := mustReachFromBlock(entry, func(in ssa.Instruction) bool {
+			ret, isRet := in.(*ssa.Return)
+			if !isRet || len(ret.Results) != 1 {
+				return false
+			}
+			c, isC := ret.Results[0].(*ssa.Const)
+			return isC && c.Value == nil
+		})
+		pos := u.Pos(ifi.Pos())
+		if bad != nil {
+			pos = u.Pos(bad.Pos())
+		}
+		r.Check(reach, "subscribeOrCreateDatatype/refused key returns nil", pos, "nil on every path after the refusal", "after the registry refused the key there is a path that goes on (for instance when no handlers were given): a second datatype is handed out for the key, which is never registered and never synchronized (F47)")
+	}
+	if !found {
+		r.Bad("subscribeOrCreateDatatype/refused key returns nil", u.Pos(exist.Pos()), "the error of ExistDatatype is not tested")
+	}
+	// every call of the error handler is guarded by errorHandler != nil
+	n := 0
+	for _, c := range callsIn(fn) {
+		call, ok := c.(*ssa.Call)
+		if !ok || call.Call.IsInvoke() || call.Call.StaticCallee() != nil {
+			continue
+		}
+		name := canonName(call.Call.Value)
+		if !strings.HasSuffix(name, ".errorHandler") {
+			continue
+		}
+		n++
+		paths, okp := reachingLitsOwn(fn, nil, call)
+		good := okp && len(paths) > 0
+		for _, p := range paths {
+			g := false
+			for _, l := range p {
+				if l.Kind == "cmp" && l.Op == token.NEQ && strings.HasSuffix(canonName(loadSource(l.X)), ".errorHandler") {
+					if k, isC := l.Y.(*ssa.Const); isC && k.Value == nil {
+						g = true
+					}
+				}
+			}
+			good = good && g
+		}
+		r.Check(good, "subscribeOrCreateDatatype/error handler called only when set", u.Pos(call.Pos()), "guarded by errorHandler != nil", "the error handler is called without a test that it is set: handlers without an error handler make the refusal panic (F47)")
+	}
+	if n == 0 {
+		r.Lost("subscribeOrCreateDatatype: calls of the error handler")
 	}
 }
